@@ -233,11 +233,6 @@ func chainStreams(c *mon.Ctx, h *hostile.Harness) {
 			opts.capMutants = 700
 		}
 		targets := w.blockTargets(k, h)
-		// blockValidator: what it accepts goes on to the handler and the consensus loop
-		bv := targets[1].fn
-		targets[1].fn = func(in []byte) string {
-			return bv(in)
-		}
 		drive(k, h, r, base, targets, opts)
 		// accepted inputs are delivered (separately, so that the validator's own call stays a
 		// single measured call): re-run the mutants the validator accepts
@@ -250,10 +245,14 @@ func chainStreams(c *mon.Ctx, h *hostile.Harness) {
 			cand = cand[:1500]
 		}
 		for _, m := range cand {
-			if w := getWorld(k); w == nil {
+			if getWorld(k) == nil {
 				return
 			}
-			if theWorld.n.Exec.VerifBlockValidator(ctx, &p2p.Message{Data: m.Data}) != p2p.ValidationAccept {
+			verdict := p2p.ValidationReject
+			h.Call(k, "consensus.blockValidator", m.Class, m.Data, func() {
+				verdict = theWorld.n.Exec.VerifBlockValidator(ctx, &p2p.Message{Data: m.Data})
+			})
+			if verdict != p2p.ValidationAccept {
 				continue
 			}
 			out := theWorld.deliverBlock(k, h, m.Class, m.Data)
@@ -303,7 +302,11 @@ func chainStreams(c *mon.Ctx, h *hostile.Harness) {
 		cand := append([]hostile.Mutant{{Class: "valid", Data: base}}, sm...)
 		cand = append(cand, hostile.RandomMutants(r, base, 100)...)
 		for _, m := range cand {
-			if w.pool.VerifTransactionValidator(ctx, &p2p.Message{Data: m.Data}) != p2p.ValidationAccept {
+			verdict := p2p.ValidationReject
+			h.Call(k, "txpool.transactionValidator", m.Class, m.Data, func() {
+				verdict = w.pool.VerifTransactionValidator(ctx, &p2p.Message{Data: m.Data})
+			})
+			if verdict != p2p.ValidationAccept {
 				continue
 			}
 			accepted++
